@@ -122,16 +122,7 @@ theorem crop_is_slice (s : C01.Src) (hdt : ∀ c, s = .cont c → 0 < c.dt) (a b
     rw [this]; rfl
   · rw [C01.getitem_spec s hne hdt]; rfl
 
-theorem len_eq_samples_length (s : C01.Src) : s.len = s.samples.length := by
-  cases s with
-  | cont c =>
-    simp only [C01.Src.len, C01.Src.samples, C01.Cont.samples]
-    generalize c.start = t0
-    induction c.data generalizing t0 with
-    | nil => rfl
-    | cons v vs ih => simp [C01.samplesFrom, ← ih]
-  | ts l => rfl
-  | tags t => simp [C01.Src.len, C01.Src.samples, C01.Tags.samples]
+theorem len_eq_samples_length (s : C01.Src) : s.len = s.samples.length := C01.len_eq_samples_length s
 
 /-- A channel is absent from the cropped file iff it has no sample inside the window. -/
 theorem crop_absent_iff_empty (s : C01.Src) (hdt : ∀ c, s = .cont c → 0 < c.dt) (a b : Int) :
